@@ -151,6 +151,39 @@ __attribute__((noinline)) static void element_reader(const Elem& shared, const V
     check_elem<LT>(typename Vec::const_reference(priv2), m.e[0], 660);
 }
 
+#ifdef TR_THROWS
+// fault schedule: while the vector is shared, a thread copies it (or constructs an element from one of its references) and the
+// copy constructor of the k-th stored object throws; whatever the copier does to clean up must not touch the shared vector
+__attribute__((noinline)) static void throwing_copier(const Vec& v, const M& m)
+{
+    usize k = verif_nondet_size(), what = verif_nondet_size();
+    verif_assume(k >= 1 && k <= 4 && what < 2);
+    k = verif_fork(k);
+    what = verif_fork(what);
+    verif_thaw_obj(&g_tr_copy_countdown);
+    g_tr_copy_countdown = static_cast<int>(k);
+    try
+    {
+        if (what == 0)
+        {
+            Vec c(v);
+            g_tr_copy_countdown = 0;
+            verif_assert(c.size() == m.n, 701);
+        }
+        else if (m.n > 0)
+        {
+            Elem e(v[0]);
+            g_tr_copy_countdown = 0;
+            check_elem<LT>(typename Vec::const_reference(e), m.e[0], 710);
+        }
+    }
+    catch (const TrThrow&)
+    {
+    }
+    g_tr_copy_countdown = 0;
+}
+#endif
+
 extern "C" void h_entry()
 {
     {
@@ -169,6 +202,10 @@ extern "C" void h_entry()
         }
 #if WITH_ELEM
         element_reader(shared, v, m);
+#elif defined(TR_THROWS)
+        (void)w;
+        (void)mw;
+        throwing_copier(v, m);
 #else
         reader(v, w, m, mw);
 #endif
